@@ -68,7 +68,43 @@ def _gen_backpressure(rng, tier):
                        reactor={"kind": "ws", "echo_close": False}, truth={})
 
 
+def _gen_read_timeout(rng, tier):
+    """read_timeout bounds how long the server waits for bytes from the client - not how long it takes to act on them: a reader held
+    behind a slow request, a full application queue or a stalled upload must fare the same on both workers."""
+    from ..wire import ws as _ws
+    from ..wire.h2raw import FrameBuilder, client_preface
+
+    for i in range(30 if tier == "quick" else 900):
+        rt = rng.choice([0.2, 0.5, 1.0])
+        delay = rng.choice([0.5, 2.0, 3.0]) * rt * 2
+        tag = 8500000 + i * 10
+        slow = [["recv_until_end"], ["sleep", delay], ["respond", 200, [(b"x-tag", b"%d" % tag)], b"slow-%d" % tag]]
+        quick = [["recv_until_end"], ["respond", 200, [(b"x-tag", b"%d" % (tag + 1))], b"quick-%d" % (tag + 1)]]
+        base = {"backends": ["asyncio", "trio"], "config": {"keep_alive_timeout": 5000, "read_timeout": rt}, "conn": {},
+                "sched": {"seed": rng.randrange(1 << 30)}, "horizon": 100.0, "source": "c16",
+                "apps": {"default": quick, "by_tag": {str(tag): slow, str(tag + 1): quick}}}
+        shape = rng.choice(["h1.pipelined", "h1.pipelined", "h1.sequential", "h2.two", "h1.idle-then-request"])
+        r1 = b"GET /t%d HTTP/1.1\r\nHost: h\r\n\r\n" % tag
+        r2 = b"GET /t%d HTTP/1.1\r\nHost: h\r\n\r\n" % (tag + 1)
+        if shape == "h1.pipelined":
+            client = [["feed", r1 + r2], ["settle"], ["advance", delay + rt / 4], ["settle"]]
+        elif shape == "h1.sequential":
+            client = [["feed", r1], ["settle"], ["advance", delay + rt / 4], ["settle"], ["feed", r2], ["settle"]]
+        elif shape == "h1.idle-then-request":
+            # a genuine read timeout: the client is silent for longer than read_timeout
+            client = [["advance", rt * rng.choice([0.5, 2.0])], ["settle"], ["feed", r2], ["settle"]]
+        else:
+            fb = FrameBuilder()
+            blob = client_preface(fb, {}) + fb.headers(1, [(b":method", b"GET"), (b":scheme", b"http"), (b":path", b"/t%d" % tag), (b":authority", b"h")], end_stream=True)
+            blob += fb.headers(3, [(b":method", b"GET"), (b":scheme", b"http"), (b":path", b"/t%d" % (tag + 1)), (b":authority", b"h")], end_stream=True)
+            yield dict(base, family="c16:read-timeout.h2.two", client=[["feed", blob], ["settle"], ["advance", rt / 2], ["settle"]],
+                       reactor={"kind": "h2", "credit": "auto"}, truth={})
+            continue
+        yield dict(base, family="c16:read-timeout." + shape, client=client, truth={"requests": [{"method": "GET"}, {"method": "GET"}]})
+
+
 def gen(rng, tier):
+    yield from _gen_read_timeout(rng, tier)
     yield from _gen_backpressure(rng, tier)
     yield from _gen_sources(rng, tier)
 
